@@ -16,6 +16,9 @@ Recorded defects (the model has them, as the code has):
 * F17.1   an `invalidate_body/def/closure` issued before the callable's first render freezes the callable's
           `_def_regions` entry to the Template's `cache_args` alone                → `args_every_render_*`
 
+The `starttime` contract (entries older than the asking template's compile stamp are absent) is part of the model; it is
+what protects a template that replaces another one under the same cache id, see the section on `starttime` below.
+
 Repaired in /repo (the model follows, the full statements are proved):
 * F17.2   `write_inline_def` now hands its `buffered` flag to the decorator (ec9a6d2) → `cached_delivers_like_uncached`
 * F17.3   `BeakerCacheImpl` now defines `set` (b9a6f20)                             → `set_then_get`
